@@ -12,10 +12,14 @@
 (*   obs.id_ok   "T" iff the returned worker's id names a child that was really started   *)
 (*               (pid seen in the OS process table / reported by the peer), else "F";     *)
 (*               "na" when the constructor did not return                                 *)
+(*   obs.registry "ok" | "broken": after the constructor raised, Worker.active_children()    *)
+(*               raises or lists a worker that carries the caller's own pid                *)
 (*   obs.leftover number of live processes left behind by the construction                *)
 EXTENDS Naturals
 
 C20_Returns(r)    == r.obs.outcome \in {"returned", "raised"}
 C20_Usable(r)     == r.obs.outcome = "returned" => r.obs.id_ok = "T"
 C20_NoLeftover(r) == r.obs.outcome = "raised" => r.obs.leftover = 0
+\* a failed construction registers nothing: Worker.active_children() still works and lists no half-built worker
+C20_NotRegistered(r) == r.obs.outcome = "raised" => r.obs.registry = "ok"
 =============================================================================
